@@ -32,13 +32,11 @@ MONITOR = {11: 'a (source, destination, sequence) triple was accepted twice',
            17: 'a commitment disappeared without an accepted acknowledgement of exactly that packet',
            18: 'a second acknowledgement of the same packet was accepted',
            23: 'an acknowledgement appeared in the store that is not the one of an accepted receive of exactly that triple',
+           25: 'a light client is registered under the chain\'s own name (the create proposal must be refused: fix a9e74e1)',
            19: 'an accepted receive / acknowledgement was not verified by the counterparty client for the recomputed (path, value)',
            22: 'a rejected message changed balances / bindings',
            6: 'malformed case'}
-KINDS = {'C01': {11, 12, 20, 21, 22, 6}, 'C02': {19, 12, 22, 6}, 'C04': {13, 14, 24, 12, 22, 6}, 'C05': {15, 16, 17, 18, 23, 6}}
-# what the self-named-client witness (hypothesis O7) is expected to break on the real code
-O7_EXPECT = {'C04': {13}, 'C05': {13, 17, 18}, 'C01': set(), 'C02': set()}
-
+KINDS = {'C01': {11, 12, 20, 21, 22, 6}, 'C02': {19, 12, 22, 6}, 'C04': {13, 14, 24, 25, 12, 22, 6}, 'C05': {15, 16, 17, 18, 23, 25, 6}}
 LONG = 64
 
 
@@ -340,7 +338,7 @@ def _new_keys(r, i, prefix):
     return [kv[0] for kv in st['obs']['store'] if kv[0].startswith(_hex(prefix)) and kv[0] not in before]
 
 
-def selftest_cases(kinds, guards, multi):
+def selftest_cases(kinds, guards, multi, o7=None):
     """-> list of (expected kind, falsified result).  guards = result of corpus case 3, multi = of corpus case 2"""
     import copy
     out = []
@@ -470,6 +468,16 @@ def selftest_cases(kinds, guards, multi):
         raw[0] = raw[0][:-2] + ('00' if raw[0][-2:] != '00' else '01')
         return True
 
+    def m25(r):
+        # the refused proposal creating a client under the chain's own name, marked accepted
+        c = [i for i, st in enumerate(r['steps']) if st['act']['t'] == 'create_client' and st['obs']['class'] != 0
+             and st['act']['name'] == r['chains'][st['chain']]['name']]
+        if not c:
+            return False
+        r['steps'][c[0]]['obs']['class'] = 0
+        return True
+
+    add(25, o7 if (o7 or {}).get('spec', {}).get('o7') else None, m25)
     add(11, guards, m11)
     add(12, guards, m12)
     add(20, guards, drop_old('receipts/'))
@@ -490,9 +498,9 @@ def by_o7(results, h):
     return h < len(results) and bool(results[h]['spec'].get('o7'))
 
 
-def monitor_selftest(workdir, kinds, guards, multi):
+def monitor_selftest(workdir, kinds, guards, multi, o7=None):
     """-> (dict kind -> fired?, error log or None)"""
-    cases = selftest_cases(kinds, guards, multi)
+    cases = selftest_cases(kinds, guards, multi, o7)
     if not cases:
         return {}, None
     mm, ff = evaluate(workdir, [r for _, r in cases], tag='selftest', workers=4)
@@ -539,10 +547,10 @@ def check(run, prop):
             return run.finish()
         mm += [(h + lo, s_, k) for h, s_, k in m1]
         ff += [(h + lo, s_, k) for h, s_, k in f1]
-        if lo == 0 and not m1 and not [f for f in f1 if f[2] in kinds and not by_o7(results, f[0])]:
+        if lo == 0 and not m1 and not [f for f in f1 if f[2] in kinds]:
             # the monitors of this property must fire on falsified copies of the corpus traces
             by_idx = {r['spec']['case']: r for r in results}
-            fired, serr = monitor_selftest(run.work, kinds - {6, 22}, by_idx.get(3), by_idx.get(2))
+            fired, serr = monitor_selftest(run.work, kinds - {6, 22}, by_idx.get(3), by_idx.get(2), by_idx.get(1))
             run.coverage['monitor_selftest'] = {str(k): v for k, v in sorted(fired.items())}
             blind = sorted(k for k, v in fired.items() if not v)
             missing = sorted((kinds - {6, 22}) - set(fired))
@@ -586,7 +594,7 @@ def check(run, prop):
              'one evaluation = one recorded step (message / EVM transaction / block) compared with the model and checked by the '
              'monitors; non-trivial = recv/ack/send steps, distinct by (kind, outcome, packet bytes, proof prefix)',
         distribution=top, model_mismatches=len(mm), monitor_failures_incl_o7_witness=len([f for f in ff if f[2] in kinds]),
-        o7_witness_cases=o7_cases, accepted_by_verifying_client=dict(sorted(by_client.items())),
+        accepted_by_verifying_client=dict(sorted(by_client.items())),
         transactions_with_several_sends=multi, corpus_cases_run_first=[0, 1, 2, 3, 4],
         samples=samples))
     run.coverage['trusted_base'] += [
@@ -602,16 +610,16 @@ def check(run, prop):
         'xibc+evm+bank store hashes around every rejected message; one message per delivered transaction)']
     run.assumptions += [
         'client look-up by name abstracts GetClientState: no other key of a client store ends in "/clientState"',
-        'C04 and C05.ack_processed_once: no client is registered under the chain\'s own name (observation O7; necessity proved in '
-        'Refuted/C04_selfclient.v, Refuted/C05_selfclient.v and replayed on the real code by the o7 witness case)',
+        'C04 and C05.ack_processed_once: the INITIAL state has no client under the chain\'s own name (necessary: '
+        'Refuted/C04_selfclient.v, Refuted/C05_selfclient.v); no history can introduce one since fix a9e74e1 '
+        '(C04_noself_invariant; the corpus history that tries is refused on the real code, monitor 25)',
         'sha256 never returns the empty string (needed because bytes.Equal(nil, []) holds in AcknowledgePacket)',
         'C04: all stored nextSequenceSend values are 8 bytes and equal the packet contract counters in the initial state']
 
-    # ---- the O7 witness: the hypothesis is necessary on the real code (informational, never a violation) ----
-    o7_seen = sorted({k for h, s, k in ff if h in o7_cases})
-    run.coverage['o7_witness_monitor_kinds_on_real_code'] = o7_seen
-    ff = [f for f in ff if not (f[0] in o7_cases and f[2] in O7_EXPECT[prop] | {13, 17, 18, 23})]
-    mm_o7 = [m for m in mm if m[0] in o7_cases]
+    # ---- the O7 history (corpus case 1 of c04 / c05): since fix a9e74e1 the proposal creating a client under the chain's
+    # own name is REFUSED; the case is an ordinary corpus case (any monitor failure in it is a violation)
+    run.coverage['o7_history_cases'] = o7_cases
+    run.coverage['o7_history_monitor_kinds_on_real_code'] = sorted({k for h, s, k in ff if h in o7_cases})
     ff = [f for f in ff if f[2] in kinds]
 
     def fails_monitor(sp):
